@@ -252,7 +252,7 @@ func genFunction(ld *Loader, specs *Specs, fn *ssa.Function, ct *Contract, opts 
 		}
 		// an in-body assert that matches no call site asserts nothing: that is a broken contract, not a pass
 		for _, as := range ct.Asserts {
-			if !g.assertHit[as] {
+			if !as.Deep && !g.assertHit[as] {
 				g.specErrors = append(g.specErrors, fmt.Sprintf("%s: assert %s call %s #%d (%s) matches no call site", tr.label, as.When, as.Callee, as.Ordinal, as.Clause.Label))
 			}
 		}
